@@ -610,7 +610,7 @@ pub fn replay(ctx: &Ctx, v: &Value) -> bool {
         "parser-residue" => {
             let r = v["input_raw"].as_str().unwrap_or("").to_string();
             let mut rep = Report::new();
-            let c2 = Ctx { id: ctx.id.clone(), tier: Tier::Thorough, seed: 0, start: ctx.start, known: ctx.known.clone(), replay_dir: ctx.replay_dir.clone() };
+            let c2 = Ctx { id: ctx.id.clone(), tier: if v["tier"] == "thorough" { Tier::Thorough } else { Tier::Quick }, seed: 0, start: ctx.start, known: ctx.known.clone(), replay_dir: ctx.replay_dir.clone() };
             parser_residue(&c2, &mut rep);
             println!("replay of parser-residue {}: {} violating residues in the full enumeration", esc(&r), rep.violations);
             rep.violations > 0
